@@ -60,6 +60,9 @@ def check(ctx):
     red_u = _universe(P, "Reducer", include_subclasses=True)
     rec_u = _universe(P, "RecordTensor")
     nsites = 0
+    # who applies the delay: monitor attribute and the read in forward agree (shared with C06.d)
+    from . import c06
+    c06.monitor_consumer_consistency(ctx, "C08.a/C06.d", only=lambda c: c.name in TRACE_TRAINERS)
     for cname in TRACE_TRAINERS:
         c = P.cls(cname)
         rc, f = c.methods["register_cell"], c.methods["forward"]
